@@ -18,7 +18,7 @@ import (
 )
 
 type c05Step struct {
-	Op   string   `json:"op"`             // call | respond | burst | cancel | sleep
+	Op   string   `json:"op"`             // call | respond | burst | cancel | sleep | drain (the stalled peer reads what is queued)
 	ID   string   `json:"id,omitempty"`   // call / respond
 	Ctx  string   `json:"ctx,omitempty"`  // call: none | deadline | cancel
 	Ms   int      `json:"ms,omitempty"`   // call: deadline; sleep: duration
@@ -27,8 +27,9 @@ type c05Step struct {
 }
 
 type c05Case struct {
-	Role      string    `json:"role"`      // client | server
-	Transport string    `json:"transport"` // tcp | inproc
+	Role      string    `json:"role"`            // client | server
+	Transport string    `json:"transport"`       // tcp | inproc
+	Stall     bool      `json:"stall,omitempty"` // tiny buffers and a peer that does not read until a drain step: sends block and fail with their context
 	Steps     []c05Step `json:"steps"`
 }
 
@@ -40,15 +41,17 @@ type c05CallObs struct {
 	Err      string `json:"err,omitempty"`
 	CtxErr   bool   `json:"ctxErr,omitempty"` // the error wraps the call's context error
 	DupErr   bool   `json:"dupErr,omitempty"` // "already in use"
+	Lost     bool   `json:"lost,omitempty"`   // the channel was no longer established when the call returned
 	AtStep   int    `json:"atStep"`           // step index after which the return was observed
 }
 
 type c05Obs struct {
-	Calls    []*c05CallObs `json:"calls"`
-	Stream   []string      `json:"stream"`   // tags of responses surfaced on RespCmdChan
-	SentTags []string      `json:"sentTags"` // tag of every response the peer sent, in order ("id#n")
-	Requests []string      `json:"requests"` // request ids the peer saw, in order
-	Note     string        `json:"note,omitempty"`
+	Calls     []*c05CallObs `json:"calls"`
+	LostAtEnd bool          `json:"lostAtEnd,omitempty"` // the channel was no longer established after the last step
+	Stream    []string      `json:"stream"`              // tags of responses surfaced on RespCmdChan
+	SentTags  []string      `json:"sentTags"`            // tag of every response the peer sent, in order ("id#n")
+	Requests  []string      `json:"requests"`            // request ids the peer saw, in order
+	Note      string        `json:"note,omitempty"`
 }
 
 type c05Peer interface {
@@ -84,7 +87,7 @@ func (r *c05InprocPeer) SendResponse(id, tag string) error {
 	return r.p.SendEnvelope(resp)
 }
 func (r *c05InprocPeer) SeenRequests() []string {
-	r.p.Drain()
+	r.p.DrainNow()
 	var out []string
 	for _, g := range r.p.Got {
 		if g.Env["method"] != nil && g.Env["uri"] != nil {
@@ -104,21 +107,29 @@ type c05Channel interface {
 }
 
 // establishVsPeer establishes the channel under test against a scripted peer.
-func establishVsPeer(role, transport string) (c05Channel, c05Peer, string) {
+func establishVsPeer(role, transport string, stall bool) (c05Channel, c05Peer, string) {
 	ctx, cancel := context.WithTimeout(context.Background(), 20*time.Second)
 	defer cancel()
 	var raw *RawPeer
 	var ip *InprocPeer
 	var libT lime.Transport
 	if transport == "inproc" {
-		ct, st := lime.VerifNewInProcessTransportPair("c05", 256) // large enough that no send ever blocks behind the send mutex (synctest cannot see mutex waits as durable)
+		buf := 256 // large enough that no send ever blocks behind the send mutex (synctest cannot see mutex waits as durable)
+		if stall {
+			buf = 1 // stalled cases issue one call at a time
+		}
+		ct, st := lime.VerifNewInProcessTransportPair("c05", buf)
 		if role == "client" {
 			libT, ip = ct, &InprocPeer{T: st}
 		} else {
 			libT, ip = st, &InprocPeer{T: ct}
 		}
 	} else {
-		a, b := Pipe(PipeOpts{})
+		po := PipeOpts{}
+		if stall {
+			po.Capacity = 400
+		}
+		a, b := Pipe(po)
 		libT = lime.VerifNewTCPTransport(a, nil, role == "server")
 		raw = NewRawPeer(b)
 	}
@@ -140,10 +151,12 @@ func establishVsPeer(role, transport string) (c05Channel, c05Peer, string) {
 			done <- err
 		}()
 		synctest.Wait()
+		drainIP(ip)
 		a := &lime.Session{State: lime.SessionStateAuthenticating, SchemeOptions: []lime.AuthenticationScheme{lime.AuthenticationSchemeGuest}}
 		a.ID, a.From = "S1", srvNode
 		send(a)
 		synctest.Wait()
+		drainIP(ip)
 		e := &lime.Session{State: lime.SessionStateEstablished}
 		e.ID, e.From, e.To = "S1", srvNode, lime.Node{Identity: lime.Identity{Name: "alice", Domain: "cli.example"}, Instance: "home"}
 		send(e)
@@ -160,13 +173,33 @@ func establishVsPeer(role, transport string) (c05Channel, c05Peer, string) {
 		synctest.Wait()
 		send(&lime.Session{State: lime.SessionStateNew})
 		synctest.Wait()
+		drainIP(ip)
 		a := &lime.Session{State: lime.SessionStateAuthenticating}
 		a.ID = fixedSid
 		a.From = lime.Node{Identity: lime.Identity{Name: "alice", Domain: "cli.example"}, Instance: "home"}
 		a.SetAuthentication(&lime.GuestAuthentication{})
 		send(a)
 	}
+	if ip != nil {
+		// a one-slot queue must be emptied for the handshake to go on
+		stop := make(chan struct{})
+		go func() {
+			for {
+				select {
+				case <-stop:
+					return
+				default:
+					ip.Drain()
+				}
+			}
+		}()
+		err := <-done
+		close(stop)
+		done <- err
+	}
 	if err := <-done; err != nil || !ch.Established() {
+		_ = ch.Close()
+		_ = libT.Close()
 		return nil, nil, fmt.Sprintf("harness: establish failed: %v", err)
 	}
 	var peer c05Peer
@@ -182,6 +215,12 @@ func establishVsPeer(role, transport string) (c05Channel, c05Peer, string) {
 	return ch, peer, ""
 }
 
+func drainIP(ip *InprocPeer) {
+	if ip != nil {
+		ip.Drain()
+	}
+}
+
 func textOf(d lime.Document) string {
 	switch v := d.(type) {
 	case *lime.TextDocument:
@@ -194,7 +233,7 @@ func textOf(d lime.Document) string {
 
 func runC05(c *c05Case) *c05Obs {
 	obs := &c05Obs{}
-	ch, peer, note := establishVsPeer(c.Role, c.Transport)
+	ch, peer, note := establishVsPeer(c.Role, c.Transport, c.Stall)
 	if note != "" {
 		obs.Note = note
 		return obs
@@ -217,6 +256,7 @@ func runC05(c *c05Case) *c05Obs {
 	}
 	var calls []*callState
 	curStep := 0
+	draining := false
 	var wg sync.WaitGroup
 	sentCount := map[string]int{}
 	respond := func(id string) {
@@ -256,6 +296,7 @@ func runC05(c *c05Case) *c05Obs {
 					co.Err = err.Error()
 					co.CtxErr = ctx.Err() != nil && errors.Is(err, ctx.Err())
 					co.DupErr = strings.Contains(err.Error(), "already in use")
+					co.Lost = !ch.Established()
 				} else if resp != nil {
 					co.RespID = resp.ID
 					co.RespTag = textOf(resp.Resource)
@@ -273,11 +314,20 @@ func runC05(c *c05Case) *c05Obs {
 			}
 		case "sleep":
 			time.Sleep(time.Duration(st.Ms) * time.Millisecond)
+		case "drain":
+			draining = true
+		}
+		if draining {
+			// from now on the peer reads again (otherwise a later send would block behind the send mutex, which a bubble
+			// cannot see as a durable block)
+			synctest.Wait()
+			_ = peer.SeenRequests()
 		}
 		synctest.Wait()
 	}
 	curStep = len(c.Steps)
 	obs.Requests = peer.SeenRequests()
+	obs.LostAtEnd = !ch.Established()
 	for _, cs := range calls {
 		cs.cancel()
 	}
@@ -288,6 +338,9 @@ func runC05(c *c05Case) *c05Obs {
 	<-streamDone
 	time.Sleep(6 * time.Second)
 	synctest.Wait()
+	if lib, other := bubbleLeftovers(); len(lib)+len(other) > 0 {
+		obs.Note = "harness: goroutines outlive the case:\n" + strings.Join(append(lib, other...), "\n--\n")
+	}
 	return obs
 }
 
@@ -361,6 +414,9 @@ func c05Model(c *c05Case) ([]c05Exp, []string) {
 func judgeC05(c *c05Case, obs *c05Obs, o *Outcome) {
 	o.Class("role=" + c.Role)
 	o.Class("transport=" + c.Transport)
+	if c.Stall {
+		o.Class("stalled-peer")
+	}
 	if strings.HasPrefix(obs.Note, "harness:") {
 		o.Fail("C05/harness", "%s", obs.Note)
 		return
@@ -375,8 +431,16 @@ func judgeC05(c *c05Case, obs *c05Obs, o *Outcome) {
 			nonIdentity = true
 		}
 	}
+	lost := false
 	for i, co := range obs.Calls {
 		e := exp[i]
+		if co.Returned && co.Err != "" && !co.CtxErr && !co.DupErr && co.Lost {
+			// The session itself ended (a transport whose write failed mid-envelope is closed): what the property says about
+			// pending requests presupposes a live session, so the rest of the history is not judged.
+			o.Class("session-lost-after-failed-send")
+			lost = true
+			break
+		}
 		o.Class("expected=" + e.Outcome)
 		if !co.Returned {
 			o.Fail("C05/call-never-returned/"+e.Outcome, "ProcessCommand #%d (id %q) did not return even after its context was cancelled", i, co.ID)
@@ -403,12 +467,17 @@ func judgeC05(c *c05Case, obs *c05Obs, o *Outcome) {
 			}
 		}
 	}
+	if !lost && obs.LostAtEnd && c.Stall && c.Transport == "tcp" {
+		// a send that failed half-written ended the session although no later call noticed: responses sent after that are not owed
+		o.Class("session-lost-after-failed-send")
+		lost = true
+	}
 	// conservation: everything the peer sent went to a caller or to the stream, and nothing else appeared
 	got := append([]string(nil), obs.Stream...)
 	want := append([]string(nil), stream...)
 	sort.Strings(got)
 	sort.Strings(want)
-	if strings.Join(got, ",") != strings.Join(want, ",") {
+	if !lost && strings.Join(got, ",") != strings.Join(want, ",") {
 		sig := "C05/stream-mismatch"
 		if len(got) < len(want) {
 			sig = "C05/unmatched-response-lost"
@@ -458,10 +527,67 @@ func genC05(rt *rapid.T) *c05Case {
 	return c
 }
 
+// stalledPrefix: calls issued one at a time against a peer that does not read, each with a deadline that expires before the
+// next one starts: the first few are written and wait for a response, the later ones fail inside the blocked send.
+func stalledPrefix(n int) []c05Step {
+	var out []c05Step
+	for i := 0; i < n; i++ {
+		out = append(out, c05Step{Op: "call", ID: fmt.Sprintf("s%d", i), Ctx: "deadline", Ms: 30}, c05Step{Op: "sleep", Ms: 50})
+	}
+	return append(out, c05Step{Op: "drain"})
+}
+
+func TestC05SendFails(t *testing.T) {
+	rec := NewRecorder("C05", "TestC05SendFails")
+	defer rec.Finish(t)
+	for _, role := range []string{"client", "server"} {
+		for _, tr := range []string{"tcp", "inproc"} {
+			for _, n := range []int{3, 14} {
+				for variant := 0; variant < 3; variant++ {
+					c := &c05Case{Role: role, Transport: tr, Stall: true, Steps: stalledPrefix(n)}
+					for _, k := range []int{0, n / 2, n - 1} {
+						id := fmt.Sprintf("s%d", k)
+						switch variant {
+						case 0: // the identifier of a completed (failed) request is reusable
+							c.Steps = append(c.Steps, c05Step{Op: "call", ID: id, Ctx: "none"}, c05Step{Op: "respond", ID: id})
+						case 1: // a response for it now matches no pending request: it belongs on the stream
+							c.Steps = append(c.Steps, c05Step{Op: "respond", ID: id})
+						case 2:
+							c.Steps = append(c.Steps, c05Step{Op: "respond", ID: id}, c05Step{Op: "call", ID: id, Ctx: "none"}, c05Step{Op: "respond", ID: id})
+						}
+					}
+					o := &Outcome{}
+					var obs *c05Obs
+					rec.Journal(c)
+					synctest.Test(t, func(t *testing.T) { obs = runC05(c) })
+					judgeC05(c, obs, o)
+					o.NonTrivial = true
+					rec.Eval(c, o)
+				}
+			}
+		}
+	}
+	rec.Note("exhaustive", "true")
+}
+
 func TestC05(t *testing.T) {
 	rec := NewRecorder("C05", "TestC05")
 	rapid.Check(t, func(rt *rapid.T) {
 		c := genC05(rt)
+		if rapid.IntRange(0, 4).Draw(rt, "stalled") == 0 {
+			// one call at a time while the peer is not reading; the drawn steps follow after the drain
+			c.Stall = true
+			c.Steps = append(stalledPrefix(rapid.IntRange(1, 16).Draw(rt, "stalledCalls")), c.Steps...)
+			ids := []string{"s0", "s1", "s5", "s9"}
+			for i := range c.Steps {
+				if c.Steps[i].Op == "respond" && rapid.Bool().Draw(rt, "retarget") {
+					c.Steps[i].ID = rapid.SampledFrom(ids).Draw(rt, "sid")
+				}
+				if c.Steps[i].Op == "call" && c.Steps[i].Ctx != "deadline" && rapid.IntRange(0, 3).Draw(rt, "reuse") == 0 {
+					c.Steps[i].ID = rapid.SampledFrom(ids).Draw(rt, "cid")
+				}
+			}
+		}
 		o := &Outcome{}
 		var obs *c05Obs
 		rec.Journal(c)
